@@ -46,6 +46,38 @@ void h_run_standalone(void)
 }
 #endif
 
+#ifdef EXIT_UNIT_VM_MAIN
+/* C10.exit.vm_main: `main` of nano_vm hands run_standalone's status to the OS unchanged (any int, including negative
+ * ones: nano_virt --run and the wrapper return (int)result as it is).  run_standalone / run_daemon are replaced by
+ * contracts returning arbitrary ghost values. */
+int __verif_sa_called, __verif_sa_ret;     /* ghost: run_standalone was called / what it returned */
+#define main vm_main
+#include "nanovm/main.c"
+#undef main
+static int run_standalone(const char *path)
+__CPROVER_requires(1)
+__CPROVER_assigns(__verif_sa_called)
+__CPROVER_ensures(__verif_sa_called == 1 && __CPROVER_return_value == __verif_sa_ret);
+static int run_daemon(const char *path)
+__CPROVER_requires(1)
+__CPROVER_assigns()
+__CPROVER_ensures(1);
+int vm_main(int argc, char *argv[])
+__CPROVER_requires(argc >= 0 && argc <= 64 && __CPROVER_is_fresh(argv, ((size_t)argc + 1) * sizeof(char *)))
+__CPROVER_requires(__verif_sa_called == 0 && GATE_INIT)
+__CPROVER_assigns(G, g_argc, g_argv, g_isolate_ffi, __verif_sa_called)
+__CPROVER_ensures(__verif_sa_called ==> __CPROVER_return_value == __verif_sa_ret);
+
+void h_vm_main(void)
+{
+    int argc; char **argv;
+    int r = vm_main(argc, argv);
+    VERIF_COVER(__verif_sa_called && __verif_sa_ret < 0);
+    VERIF_COVER(!__verif_sa_called);
+    (void)r;
+}
+#endif
+
 #ifdef EXIT_UNIT_WRAPPER
 #define main wrapper_main
 #include "wrapper_main.c"
